@@ -26,6 +26,7 @@ struct Action {
     int handler_index = -1;    // ... or, if >= 0, it fires between handlers: right after the n-th handler the io_context ran
     bool in_handler = false;   // executed from inside a handler running on the client's executor (asio::post), not from outside
     bool chained = false;      // executed in the same step as the previous script entry, without letting handlers run in between
+    int after_script = -1;     // >= 0: executed inline, from inside the completion handler of the operation issued by that script entry
     // publish / broker_publish
     int qos = 0; bool retain = false;
     std::string topic;         // suffix after the tag ("v/<op>/" is prepended) unless raw_topic
